@@ -263,6 +263,8 @@ class AbstractOfflineSpecification(AbstractSpecification):
         self.explainer = explainer
 
     def explain(self):
+        # the explainer reads the bounds of timed operators in samples, as the evaluation did
+        self.explainer.time_unit_transformer = self.offline_interpreter.time_unit_transformer
         self.explainer.explain(self.ast)
 
     # forwarding to interpreter
